@@ -170,6 +170,14 @@ func vfSCorpus(r *vfRand) []*vfSCase {
 		{Kind: "corpus", Reqs: []vfSReq{
 			{Path: "/", Ops: []vfSOp{{O: "ref", V: big}, {O: "save"}, {O: "ref", V: small}, {O: "save"}}},
 			{Path: "/"}}},
+		// more than ten chunk cookies per token (two-digit chunk numbers), then fewer but still ten or more, then few, then none
+		{Kind: "corpus", Reqs: []vfSReq{
+			{Path: "/", Ops: []vfSOp{{O: "acc", V: vfSTok(r, "jwt", 33000)}, {O: "ref", V: vfSTok(r, "b64", 30000)}, {O: "save"}}},
+			{Path: "/", Ops: []vfSOp{{O: "acc", V: vfSTok(r, "jwt", 4000)}, {O: "ref", V: vfSTok(r, "b64", 2500)}, {O: "save"}}},
+			{Path: "/", Ops: []vfSOp{{O: "acc", V: vfSTokStored(r, 20000-8)}, {O: "ref", V: vfSTokStored(r, 19996)}, {O: "save"}}},
+			{Path: "/", Ops: []vfSOp{{O: "acc", V: vfSTok(r, "jwt", 24000)}, {O: "ref", V: vfSTok(r, "b64", 16000)}, {O: "save"}}},
+			{Path: "/", Ops: []vfSOp{{O: "acc", V: "short"}, {O: "ref", V: ""}, {O: "save"}}},
+			{Path: "/"}}},
 		// stored forms that fill their last chunk cookie exactly (2000, 4000, 6000 characters) and their neighbours
 		{Kind: "corpus", Reqs: []vfSReq{
 			{Path: "/", Ops: []vfSOp{{O: "acc", V: vfSTokStored(r, 4000)}, {O: "ref", V: vfSTokStored(r, 6000)}, {O: "save"}}},
